@@ -36,6 +36,9 @@ def record_and_validate(ctx, scen, runs, blocks, label, seed_offset=0):
     stats = json.load(open(os.path.join(out, "runs.json")))
     events = read_ndjson(trace)
     validate_events(ctx, events, stats, label, dict(scen=scen, seed=seed, blocks=blocks))
+    commits = [e for e in events if e["e"] == "Commit"]
+    if not ctx.violations:
+        tally_floor(ctx, len(commits), sum(1 for e in commits if "q" in e))
     return stats
 
 
@@ -100,6 +103,15 @@ def signature(ev, invariant):
     return "rejected:" + str(ev.get("e"))
 
 
+def tally_floor(ctx, events_total, tallies):
+    """The incremental-vs-definitional tally comparison hangs on an optional field of the Commit event (the engine's
+    cached state peeked through VerifTally): if it silently disappears the clause is no longer checked."""
+    ctx.cov["tally_comparisons"] = ctx.cov.get("tally_comparisons", 0) + tallies
+    ctx.cov["commit_events"] = ctx.cov.get("commit_events", 0) + events_total
+    if events_total > 50 and tallies * 2 < events_total:
+        raise Infra("only %d of %d Commit events carry the engine's tally (VerifTally peeks nothing?)" % (tallies, events_total))
+
+
 def nontrivial(stats):
     fin = sum(1 for s in stats if s["maxFin"] > 0)
     fork = sum(1 for s in stats if s["maxForkDepth"] >= 2)
@@ -157,11 +169,14 @@ def replay_schedules(ctx, num, depth=30):
         raise Infra("bftsim -replay failed rc=%s: %s" % (rc, o[-2000:]))
     summary = json.loads(o.strip().splitlines()[-1])
     disagree = [n for n in summary.get("notes", []) if "SPEC-DISAGREE" in n]
-    if disagree:
-        raise Infra("BFT.tla and the real engine (as accepted by Trace_BFT.tla) disagree - specification drift: %s" % disagree[:3])
     stats = json.load(open(os.path.join(out, "runs.json")))
     events = read_ndjson(os.path.join(out, "trace.ndjson"))
+    # the implementation-facing judge first: a deviation of the real code visible only in a replayed schedule must be
+    # reported as such; only if Trace_BFT accepts everything is a disagreement with the design model specification drift
+    before = len(ctx.violations) + len(ctx.known_hit)
     validate_events(ctx, events, stats, "tlc-schedules", dict(replay="MCBFTSim", num=num, depth=depth, seed=ctx.seed))
+    if disagree and len(ctx.violations) + len(ctx.known_hit) == before:
+        raise Infra("BFT.tla and the real engine (as accepted by Trace_BFT.tla) disagree - specification drift: %s" % disagree[:3])
     ctx.cov["tlc_schedules_replayed"] = len(files)
     ctx.cov["tlc_schedules_cut_short_by_score_order"] = len([n for n in summary.get("notes", []) if "behaviour cut" in n])
     return stats
